@@ -54,6 +54,10 @@ def plan(tier):
         # the same, in a process whose program has derived its own class from MetaModule (the registry then
         # hands out that class for every MetaModule read from a file)
         descs.append({"kind": "focus", "type": t, "examples": per // 2, "prelude": "user_subclass"})
+    for i in range(4):
+        # a Sampler's instrument record over the grid of its few format-version values and editor fields, each field
+        # then edited to every grid value on the loaded object
+        descs.append({"kind": "sampler_record_grid", "part": i, "parts": 4})
     fs = c05.fixture_files()
     for i in range(4):
         # every fixture x every attribute of the common catalogue (thorough: all; quick: every 6th, phase by seed)
@@ -395,6 +399,9 @@ def run_shard(ctx, desc):
             ctx.label("attr_sweep")
             ctx.sample({"src": "attr_sweep", "file": rel, "attributes": len(all_edits), "edited": n})
         return
+    if desc["kind"] == "sampler_record_grid":
+        run_sampler_record_grid(ctx, desc["part"], desc["parts"])
+        return
     if desc["kind"] == "fixture_sweep":
         for f in desc["files"]:
             rel = os.path.relpath(f, os.path.join(REPO, "tests", "files"))
@@ -424,6 +431,34 @@ def run_shard(ctx, desc):
         run_property(ctx, edit_case(focus=desc["type"]), body, desc["examples"], tag="focus:" + desc["type"], bucket="edit")
         return
     run_property(ctx, edit_case(), body, desc["examples"], tag="random", bucket="edit")
+
+
+def run_sampler_record_grid(ctx, part, parts):
+    grid = build.SAMPLER_RECORD_GRID
+    for k, (fields, spec) in enumerate(build.sampler_record_grid_specs()):
+        if k % parts != part:
+            continue
+        for name in sorted(grid):
+            for v in grid[name]:
+                if v == fields[name]:
+                    continue
+                case = {"src": "synth", "spec": spec, "edits": [["mod", -1, "pay", "s_field", name, v]]}
+                ctx.case()
+                try:
+                    labels, changed = run_case(ctx, case)
+                    if changed:
+                        ctx.mark_nontrivial(case)
+                except PropertyViolation as v_:
+                    ctx.check(False, v_.sub_oracle, v_.detail, key=v_.key, recipe={"tag": "sampler_record_grid", "case": case})
+                except Exception as ex:  # noqa: BLE001
+                    from vlib.harness import as_violation
+
+                    v_ = as_violation(ex, "C06", "edit")
+                    if v_ is None:
+                        raise
+                    ctx.check(False, v_.sub_oracle, "%r %r: %s" % (fields, case["edits"][0][3:], v_.detail), key=v_.key, recipe={"tag": "sampler_record_grid", "case": case})
+    ctx.label("sampler_record_grid")
+    ctx.sample({"src": "sampler_record_grid", "grid": grid, "part": [part, parts]})
 
 
 def replay(ctx, doc):
